@@ -167,31 +167,6 @@ def calls_of(run):
     return cs
 
 
-def relock_returned(run):
-    """Did an actor lock() a mutex it already held, and did that call return?  (from the log only)"""
-    holder = {}
-    pending = {}
-    for e in run["events"]:
-        a, what = e[1], e[2]
-        if what == "call":
-            pending[a] = (e[3], e[4:])
-            if e[3] == "unlock":
-                holder.pop(e[4], None)
-            if e[3] == "wait" and holder.get(e[5]) == a:
-                holder.pop(e[5], None)
-        elif what == "ret":
-            op, args = pending.get(a, (None, []))
-            if op == "lock":
-                if holder.get(args[0]) == a:
-                    return True
-                holder[args[0]] = a
-            elif op == "try" and e[4] == "1":
-                holder[args[0]] = a
-            elif op == "wait":
-                holder[args[1]] = a
-    return False
-
-
 APP_KER = {"L": "M", "A": "S", "B": "B", "S": "Xs", "G": "Xr", "J": "J", "K": "J"}
 
 
@@ -233,12 +208,6 @@ def probe_factories(ctx, h):
     ctx.broken[:] = [b for b in ctx.broken if b.get("kind") != "harness-run"]
     ok = [f for f in FACTORIES if res.get(("probe", f), {}).get("status") == "ok" and res[("probe", f)]["out"] is not None]
     return ok
-
-
-def classify(prog, runs, verdict):
-    if any(relock_returned(r) for r in runs.values()):
-        return "mutex-relock-by-owner-returns"
-    return None
 
 
 def load_corpus(path):
@@ -389,17 +358,15 @@ def run(ctx):
                 nontrivial += 1
             seen.add(prog)
         elif v.startswith("MONFAIL"):
-            ctx.violation(v[:600], case, key=classify(prog, runs, v))
+            ctx.violation(v[:600], case, key=None)
         elif v.startswith("DISAGREE"):
             if kind == "sy":
                 ctx.violation("the call/ret log of the real run is not accepted by the Sync trace-acceptance model: " + v[:500],
-                              case, key=classify(prog, runs, v))
-            elif classify(prog, runs, v):
-                # the run re-locked a mutex it owned and went on: the reference LTS refuses that very step (the proved
-                # counterexample of Props.lean) even when the final state happens to be reachable — same finding
-                ctx.violation("the history of the real run is refused by the reference LTS at the re-lock of an owned "
-                              "mutex: " + v[:300], case, key=classify(prog, runs, v))
+                              case, key=None)
             else:
+                # (until the repair of mutex-relock-by-owner-returns, props/C14/fix_series/01, a run that re-locked a
+                # mutex it owned and went on was reported here under that key; the re-lock now blocks, in the library
+                # and in the model, and the two witnesses are regression cases of corpus.txt)
                 ctx.broken.append({"kind": "one-simcall-machine-disagrees", "prog": prog, "verdict": v[:800]})
         else:
             ctx.broken.append({"kind": "driver-badline", "verdict": v[:300], "prog": prog})
